@@ -227,6 +227,27 @@ def violates(data):
     if verdict != "OK":
         return None, "rejected"
     ctx = deserialise(data)
+    # the state snapshot the deserialiser stores with every block of slices (`_state`, the documented way to place the
+    # slice values) is the state AT that data unit: its parse code, picture number and fragment position
+    for seq in ctx["sequences"]:
+        for du in seq["data_units"]:
+            code = int(du["parse_info"]["parse_code"])
+            if "picture_parse" in du:
+                st = du["picture_parse"]["wavelet_transform"]["transform_data"].get("_state")
+                want = {"parse_code": code, "picture_number": du["picture_parse"]["picture_header"]["picture_number"]}
+            elif "fragment_parse" in du and "fragment_data" in du["fragment_parse"]:
+                fh = du["fragment_parse"]["fragment_header"]
+                st = du["fragment_parse"]["fragment_data"].get("_state")
+                want = {"parse_code": code, "picture_number": fh["picture_number"], "fragment_slice_count": fh["fragment_slice_count"],
+                        "fragment_x_offset": fh["fragment_x_offset"], "fragment_y_offset": fh["fragment_y_offset"]}
+            else:
+                continue
+            if st is None:
+                continue
+            for k, v in want.items():
+                if k in st and int(st[k]) != int(v):
+                    return ("the state stored with the slices of a data unit (parse code %d, picture %s) says %s = %s, the data unit itself %s"
+                            % (code, want["picture_number"], k, st[k], v)), "accepted"
     pics, units = pictures_of(ctx)
     if len(pics) != len(snaps):
         return "the deserialiser sees %d pictures, the validator decoded %d" % (len(pics), len(snaps)), "accepted"
